@@ -104,6 +104,8 @@ def gen_source(rng, budget, opts, direction):
         sc['error_at'] = rng.randint(0, count)
     if direction == 'c':
         sc['start_idx'] = 1
+    if src in ('gen', 'agen') and rng.random() < opts.get('on_cancel_raises', 0.0):
+        sc['on_cancel_raises'] = True
     if rng.random() < opts.get('lib_streams', 0.0):
         # rsocket.streams.EmptyStream / ErrorStream: zero elements, then the terminal signal on the first request
         sc = {'src': _pick(rng, [(1, 'lib-empty'), (1, 'lib-error')]), 'count': 0, 'lens': sc['lens'], 'end': 'separate'}
@@ -325,6 +327,7 @@ def gen_cut_base(seed, opts=None):
     opts.setdefault('errors', False)
     opts.setdefault('stall_faults', 0.0)
     opts.setdefault('cancels', 0.0)
+    opts.setdefault('on_cancel_raises', 0.15)  # a publisher whose on_cancel callback fails while everything is being stopped
     plan = gen_core(seed, opts)
     plan['loop'] = {'eps': _pick(rng, [(3, 0.0), (1, 1e-6)])}
     plan['client']['keepalive_ms'] = _pick(rng, [(2, 100), (2, 500), (1, 1_000_000)])
@@ -426,6 +429,17 @@ def gen_cut(seed, opts=None):
                 ia['at'] = round(0.3 + rng.uniform(0, 0.05), 4)
                 ia['late'] = True
                 plan['interactions'].append(ia)
+            if rng.random() < 0.5:
+                # one of the late requests is a fall-back issued from inside on_error of a stream that the loss fails
+                # (i.e. while the endpoint is busy stopping all its streams)
+                late = [ia for ia in plan['interactions'] if ia.get('late') and ia['kind'] == 'rr']
+                if late:
+                    fb = late[0]
+                    fb['via_retry'] = True
+                    plan['interactions'].append({'id': nid + 10, 'kind': 'stream', 'by': who, 'at': round(rng.uniform(0, 0.004), 4),
+                                                 'req': {'dlen': 16, 'mlen': None},
+                                                 'resp': {'src': 'manual', 'count': 50, 'lens': [[16, None]], 'end': 'separate', 'pacing': 0.05},
+                                                 'sub': {'initial_n': 0x7FFFFFFF, 'refill': [1], 'retry_on_error': fb}})
             plan['faults'].append({'kind': 'close', 'who': who, 'at': 0.6, 'hops': rng.randint(0, 3)})
             plan['late_requests'] = who
     return plan
